@@ -36,8 +36,13 @@ def build1(e):
         # The dict handed to the constructor stays the CALLER's: it is used for a second calendar, which is then edited
         # in place, and it is changed by the caller afterwards - none of which may show in the calendar of the case.
         given = {from_us(t): num_in(v) for t, v in e[1]}
-        c = DirectCalendar(given)
-        twin = DirectCalendar(given)
+        if given:
+            c = DirectCalendar(given)
+            twin = DirectCalendar(given)
+        else:
+            # nothing configured: built without argument, like the twin (two empty calendars are two calendars)
+            c = DirectCalendar()
+            twin = DirectCalendar()
         if k == 'datedset':
             more = {from_us(t): num_in(v) for t, v in e[2]}
             c.set_units(more)
